@@ -16,3 +16,16 @@ theorem smul_mod_order_law {A : Type*} [AddCommGroup A] (G : A) (n : ℤ) (hn : 
   have h : a = a % n + n * (a / n) := (Int.emod_add_mul_ediv a n).symm
   conv_rhs => rw [h]
   rw [add_zsmul, mul_comm, mul_zsmul, hn, smul_zero, add_zero]
+
+theorem smul_one_law {A : Type*} [AddCommGroup A] (P : A) : (1 : ℤ) • P = P := one_zsmul P
+
+theorem smul_neg_one_law {A : Type*} [AddCommGroup A] (P : A) : (-1 : ℤ) • P = -P := by
+  rw [neg_zsmul, one_zsmul]
+
+theorem smul_zero_left_law {A : Type*} [AddCommGroup A] (P : A) : (0 : ℤ) • P = 0 := zero_zsmul P
+
+theorem smul_zero_right_law {A : Type*} [AddCommGroup A] (k : ℤ) : k • (0 : A) = 0 := smul_zero k
+
+/-- in a group all of whose elements are killed by n (a group of order n), kP depends only on k mod n -/
+theorem smul_mod_order_pt_law {A : Type*} [AddCommGroup A] (n : ℤ) (hn : ∀ P : A, n • P = 0) (a : ℤ) (P : A) :
+    (a % n) • P = a • P := smul_mod_order_law P n (hn P) a
